@@ -13,6 +13,7 @@ import (
 	"encoding/binary"
 	"fmt"
 	"math/rand/v2"
+	"runtime/debug"
 	"sort"
 	"strings"
 	"testing"
@@ -26,6 +27,10 @@ import (
 )
 
 var comparer = testkeys.Comparer
+
+// The monitor allocates many short-lived small objects; a laxer GC target
+// keeps the collector from dominating the run on a shared machine.
+func init() { debug.SetGCPercent(400) }
 
 // ---- running the real iterator ------------------------------------------
 
